@@ -46,6 +46,13 @@ def run(prop, tier, seed, scratch, replay=None):
     vlib.require_tlc_ok(bfs, "exhaustive exploration")
     with open(graphs, "w") as f:
         f.write(bfs["other"]["GRAPHS"][0])
+    impl = None
+    if prop in ("C01", "C12"):
+        # design-level stage: the bucket-shaped transcription of tx.go / unconfirmed.go (spec/TxStoreImpl.tla) computes,
+        # in every reachable state, exactly what the fact-level query operators demand
+        icfg = "MC_TxStoreImpl_%s.cfg" % tier
+        impl = vlib.run_tlc(scratch, "TxStoreImpl.tla", icfg, tag="impl", timeout=3000)
+        vlib.require_tlc_ok(impl, "bucket-layer refinement (TxStoreImpl)")
     cov = None
     if tier == "thorough":
         cov = vlib.coverage_check(scratch, "TxStore.tla", CFG[prop]["quick"][0],
@@ -100,6 +107,9 @@ def run(prop, tier, seed, scratch, replay=None):
     }
     if cov:
         res.coverage["coverage_run"] = cov
+    if impl:
+        res.coverage["bucket_layer_refinement"] = {"spec": "spec/TxStoreImpl.tla", "cfg": icfg, "distinct_states": impl["distinct"],
+                                                   "generated": impl["generated"], "invariant": "ImplInv", "wall_s": impl["wall_s"]}
     if wl:
         res.coverage["wallet_level_pass"] = {"behaviours_replayed": wl["traces"], "comparisons": wl["checks"],
                                               "distinct_nontrivial": wl["distinct_nontrivial"]}
